@@ -3,10 +3,13 @@
    Vote layer as in Abs/Votes.v (plus the "candidate's log is at least as up to
    date" guard of Grant), and on top of it: logs, durable prefix [flushed],
    commit index, AppendEntries requests/acknowledgements, leader commit,
-   crash/restart losing the unflushed tail.
+   flushing, snapshot installation, crash/restart losing the unflushed tail.
 
    Node ids are N (0 = none), V is the static voter list, an entry is
    (term, payload), a log is a list of entries, index = position from 1.
+   The log of a node is its LOGICAL log: log compaction (dropping a prefix that a
+   snapshot covers) is invisible here; a snapshot that a node installs is the
+   prefix of the leader's logical log it stands for (step SInstall).
 
    In flight:
      grants   vote-granted replies            (consumed at most once, may be lost)
@@ -15,16 +18,20 @@
                                                sender, arbitrarily late; SNet replaces the
                                                pool by any list drawn from it: loss,
                                                duplication, reordering)
-     acks     successful AppendEntries replies (consumed at most once, may be lost)
+     acks     successful AppendEntries / InstallSnapshot replies
+                                              (consumed at most once, may be lost)
    Vote requests are the ghost [started]: a request (t, c, log of c when it
-   started the election of t) stays deliverable for ever.
+   started the election of t) stays deliverable for ever.  A request may announce
+   any commit index up to the leader's (replication threads work on a lagging copy).
 
    Ghost histories (never read by a guard, except [started] as the pool of vote
-   requests): votes, elected (term, node, log at election), created (every log
-   value a leader had right after appending an entry), acked (t, v, i): "v
-   answered success to the leader of t for the prefix up to i", committed
-   (t, i, e): "index i with entry e was marked committed in term t" (by the leader
-   of t, or by a follower processing a request of term t).
+   requests, and [created]/[acked]/[elected] in the guard of SInstall, which says
+   "the snapshot is a committed prefix of its leader's log"): votes, elected
+   (term, node, log at election), created (every log value a leader had right
+   after appending an entry), acked (t, v, i): "v answered success to the leader of
+   t for the prefix up to i", committed (t, i, e): "index i with entry e was marked
+   committed in term t" (by the leader of t, by a follower processing a request of
+   term t, or by installing a snapshot).
 
    Every step is guard + state transformer do_xxx, so concrete runs evaluate. *)
 From Coq Require Import List NArith Arith Lia Bool.
@@ -242,13 +249,44 @@ Definition do_advance (l : N) (k : nat) (s : state) : state :=
       ((cur x, l, k) :: acked s)
       (tagged (cur x) k (log x) ++ committed s).
 
-(* crash + restart: the unflushed tail is lost, volatile state reset *)
-Definition do_crash (n : N) (s : state) : state :=
+(* crash + restart: the unflushed tail is lost, volatile state reset; the commit index restarts
+   at c (0, or the index of the node's snapshot: some index it knew committed) *)
+Definition do_crash (n : N) (c : nat) (s : state) : state :=
   let x := st s n in
   mkS (upd (st s) n (mkN (cur x) (vote x) Follower [] (firstn (flushed x) (log x))
-                         (flushed x) 0 []))
+                         (flushed x) c []))
       (grants s) (appends s) (acks s) (votes s) (started s) (elected s) (created s)
       (acked s) (committed s).
+
+(* X is a prefix of a log that the leader of term t held while leading *)
+Definition lpre (s : state) (t : N) (X : list entry) : Prop :=
+  (exists n L, In (t, n, L) (elected s) /\ prefix X L) \/
+  (exists K, In K (created s) /\ lastTerm K = t /\ prefix X K).
+
+(* v acknowledged index k (or more) to the leader of tc *)
+Definition ackd (s : state) (tc v : N) (k : nat) : Prop :=
+  exists i, In (tc, v, i) (acked s) /\ (k <= i)%nat.
+
+(* Snapshot installation.  The leader l of term t sends its state machine up to index |K|; K is the
+   prefix of its log that the snapshot stands for (the log itself may have been compacted: the
+   abstract log keeps the compacted prefix).  K2 is a log created by some leader, acknowledged by a
+   majority, that extends K: everything in K is committed.  The follower keeps its own log when K is
+   a prefix of it and replaces it by K otherwise; everything up to |K| is durable and committed
+   (the follower's commit index c moves anywhere between its old value and |K|: it jumps to |K| when
+   the log is replaced and stays when the follower keeps its log); the answer acknowledges |K|. *)
+Definition do_install (f t l : N) (K K2 : list entry) (c : nat) (s : state) : state :=
+  let x := st s f in
+  let same := prefixb K (log x) in
+  mkS (upd (st s) f
+         (mkN t (if cur x <? t then 0 else vote x) Follower []
+              (if same then log x else K)
+              (if same then Nat.max (flushed x) (length K) else length K)
+              c (matchIdx x)))
+      (grants s) (appends s)
+      (mkAck t f l (length K) :: acks s)
+      (votes s) (started s) (elected s) (created s)
+      ((t, f, length K) :: acked s)
+      (tagged (lastTerm K2) (length K) K ++ committed s).
 
 (* a node makes more of its log durable (segment roll-over, explicit flush) *)
 Definition do_flush (n : N) (k : nat) (s : state) : state :=
@@ -279,6 +317,10 @@ Definition do_recv_append (f : N) (m : areq) (s : state) : state :=
 
 Section Raft.
 Variable V : list N.
+
+(* a majority of the voters acknowledged index k (or more) to the leader of tc *)
+Definition chosen (s : state) (tc : N) (k : nat) : Prop :=
+  exists Q, majority V Q /\ forall v, In v Q -> ackd s tc v k.
 
 Inductive step (s : state) : state -> Prop :=
 | SStart : forall n,
@@ -333,8 +375,9 @@ Inductive step (s : state) : state -> Prop :=
     majority V Q ->
     (forall v, In v Q -> v = l \/ match_ge (matchIdx (st s l)) v k) ->
     step s (do_advance l k s)
-| SCrash : forall n,
-    step s (do_crash n s)
+| SCrash : forall n c,
+    (c <= commit (st s n))%nat ->
+    step s (do_crash n c s)
 | SLoseGrant : forall g,
     step s (do_lose_grant g s)
 | SNet : forall l',
@@ -344,7 +387,18 @@ Inductive step (s : state) : state -> Prop :=
     step s (do_drop_ack a s)
 | SFlush : forall n k,
     (flushed (st s n) <= k <= length (log (st s n)))%nat ->
-    step s (do_flush n k s).
+    step s (do_flush n k s)
+| SInstall : forall f t l K K2 L0 c,
+    f <> l ->
+    cur (st s f) <= t ->
+    In (t, l, L0) (elected s) ->
+    lpre s t K ->
+    In K2 (created s) ->
+    prefix K K2 ->
+    lastTerm K2 <= t ->
+    chosen s (lastTerm K2) (length K2) ->
+    (commit (st s f) <= c <= Nat.max (commit (st s f)) (length K))%nat ->
+    step s (do_install f t l K K2 c s).
 
 Inductive Reachable : state -> Prop :=
 | R_init : Reachable init
